@@ -68,3 +68,10 @@ func verif_arg[T any](i int) T { var z T; return z }
 func verif_x_strings_IndexByte(s string, c byte) (idx int) { return strings.IndexByte(s, c) }
 
 func verif_x_strconv_Atoi(s string) (n int, err error) { return strconv.Atoi(s) }
+
+// ---- ghost state (C21): ref-mutating calls made on the database handle
+
+var verif_ghost struct {
+	nMut      int // calls of a ref-mutating hooksDatabase method
+	nCombined int // ... of which CommitWithWorkingSet (head and working set in one root update)
+}
